@@ -55,7 +55,7 @@ def jump(rng, lines, depth=0):
 
 def build(case):
     rng = random.Random(case["seed"])
-    n = rng.randint(2, 14)
+    n = rng.randint(2, 14) if not case.get("big") else rng.randint(60, 250)
     first = 0 if rng.random() < 0.25 else rng.randint(1, 50)
     nums = sorted(set([first] + rng.sample(range(first + 1, first + 400), n - 1)))
     mult = rng.choice([1, 1, 10, 70])
@@ -287,7 +287,7 @@ OPTS = [{}, {"filter_unused_linenum": True}, {"add_suffix": False}, {"filter_unu
 def cases(tier, seed):
     n = 2500 if tier == "quick" else 200000
     for i in range(n):
-        yield {"kind": "graph", "seed": seed * 48271 + i, "opts": OPTS[i % len(OPTS)], "sample": i % 700 == 0}
+        yield {"kind": "graph", "seed": seed * 48271 + i, "opts": OPTS[i % len(OPTS)], "sample": i % 700 == 0, "big": i % 40 == 39}
     for ln in (32698, 32699, 32700, 32701, 32767, 32768, 65535, 100000):
         for o in OPTS[:2]:
             yield {"kind": "boundary", "line": ln, "seed": ln, "opts": o}
